@@ -18,6 +18,10 @@ CHECKS = {
             "Exploration: every form reached by random conversion histories must show the reference tree's variables and term; operator listings are checked against the tree; arbitrary strings accepted by both parsers must agree in every form.",
             "Trusted: reference semantics; equal acceptance of sloppy strings is deliberately not demanded.",
             "DESIGN.md 3/C03"),
+    "C04": ("runtime monitor: hostile variable-name families and every slice length, term-algebra binding oracle",
+            "Exploration: names from ASCII / digit / Greek / arbitrary-braced families (0..40 distinct, beyond the inline capacity 16), var_names compared with Rust's sort of the distinct names, binding observed symbolically (Var(i) must sit at every occurrence of the i-th name), every slice length 0..n+3 on all evaluation entry points, derived expressions' variable lists, shipped float and value tables.",
+            "Trusted: Rust's str ordering as the reference order; reference tree.",
+            "DESIGN.md 3/C04"),
     "C07": ("runtime monitor: exhaustive single-point damage of rendered well-formed texts, all parser entry points must return Err",
             "Fault-style exploration: for every generated well-formed text ALL single-point damages of the listed kinds are applied (each parenthesis deleted; '(' , ')' and an illegal character inserted at every character position outside braces; every binary operator appended; an extra operand placed left and right of every primary operand token) and every parser entry point (term-algebra tables, shipped float table, shipped value table) must reject. ~10^6 damaged variants in the quick tier.",
             "Trusted: the renderer produces well-formed texts (originals rejected by all parsers are skipped and counted); the illegal-character set is disjoint from every table in use; tab/newline are not treated as illegal.",
@@ -26,6 +30,10 @@ CHECKS = {
             "Exploration with an exhaustive sub-space (all tree shapes with <=3 binary operators x all call/infix subsets x 4 tables) plus random trees with calls at every position (first/second argument, under unary functions, inside parentheses, symbolic and dual operators); positions reached are measured from the rendered tokens and required to be non-zero.",
             "Trusted: reference semantics; expand_calls (token-level rewrite literally following the property statement).",
             "DESIGN.md 3/C08"),
+    "C12": ("runtime monitor: print/parse and serde round trips over the term algebra (Debug form is a matcher literal by construction) and the shipped tables",
+            "Exploration: parse->unparse byte identity; texts printed by deep, converted and derived (operator application, substitution, differentiation) expressions are re-parsed as flat and deep expressions and compared with the reference tree (mod AC); serde_json round trips. f64 prints with exponent/non-finite literals are counted and skipped (the property's proviso).",
+            "Trusted: reference tree; a derivative's printed text can only bring back variables that still occur (C09 keeps the full list), so derivatives are compared binding by name.",
+            "DESIGN.md 3/C12"),
     "C14": ("runtime monitor: reduction-trace hook (H1) checked online against a shadow consumed-set, term-algebra result oracle, tracker driven directly against Vec<bool>",
             "Exploration with an exhaustive sub-space: every application order of chains with up to 8 (quick) / 9 (thorough) operands, structured and random orders at lengths straddling 32/64/128/192/256/500/1000 operands; each reduction step of eval_binary is observed through hook H1 and checked (nearest live operands, nothing consumed twice, order imposed by priorities), the final term is compared with the model, and both NumberTracker implementations are driven directly against a Vec<bool> shadow.",
             "Trusted: the 30-line chain-reduction model; hook H1 records (op, left, right, n) faithfully.",
